@@ -9,7 +9,6 @@ keys; any format: nothing else) are simply not evaluated for that format: no cla
 """
 import hashlib
 import json
-import math
 import re
 
 from pyvc.raclib import Recorder, sandbox, strict_eq
